@@ -473,15 +473,15 @@ def r5(repo, res):
     # read-back tables keyed by model.varName(v); prefix tests select one family
     for ref in ("cn::solve_cn_model", "major::solve_major_model"):
         g = repo.func(ref)
-        lk = [n for n in walk_local(g) if isinstance(n, ast.Assign) and isinstance(n.targets[0], ast.Name)
-              and n.targets[0].id == "lookup"]
+        lk = [n for n in walk_local(g) if isinstance(n, ast.Assign) and isinstance(n.targets[0], ast.Name) and isinstance(n.value, (ast.DictComp, ast.Dict))
+              and any(isinstance(c_, ast.Call) and isinstance(c_.func, ast.Attribute) and c_.func.attr == "varName" for c_ in ast.walk(n.value))]
         ok = bool(lk)
         keys = []
         if lk:
             for d in ast.walk(lk[0].value):
                 if isinstance(d, ast.DictComp):
                     keys.append(ast.unparse(d.key))
-            ok = bool(keys) and all(k.startswith("model.varName(") for k in keys)
+            ok = bool(keys) and all(".varName(" in k for k in keys)
         res.ob("C05.R5", g, lk[0] if lk else g, ok, expected="solution names are mapped back through model.varName(v)",
                found=str(keys), key=f"readback:{ref}")
     g = repo.func("major::solve_major_model")
